@@ -17,3 +17,8 @@ package common
 //@   inline
 //@ func ElementCountToByteCount
 //@   inline
+// value.Cmp(BigInt0) < 0 (assumed: BigInt0 is zero and is never modified)
+//@ func IsBigIntNegative
+//@   trusted
+//@   requires value != nil
+//@   ensures result == bigNeg[uint64(value)]
